@@ -23,6 +23,7 @@ import PrqlModel.Drv.Scope
 import PrqlModel.Drv.Anchor
 import PrqlModel.Drv.InferSorts
 import PrqlModel.Drv.Flatten
+import PrqlModel.Drv.CteOrder
 namespace Drv
 
 def handlers : List (List String → Option String) := [
@@ -44,7 +45,8 @@ def handlers : List (List String → Option String) := [
   Drv.Scope.handle,
   Drv.Anchor.handle,
   Drv.InferSorts.handle,
-  Drv.Flatten.handle
+  Drv.Flatten.handle,
+  Drv.CteOrder.handle
 ]
 
 def handle (fields : List String) : String :=
